@@ -1,4 +1,4 @@
-import BppProofs.Lemmas.NumDerivSided
+import BppProofs.Lemmas.NumDerivCaller
 /-!
 # C12 — numerical derivatives are transparent and exact on low-degree polynomials
 
@@ -270,6 +270,43 @@ theorem probes_feasible (f : List ℝ → ℝ) (w : W ℝ) (es : List (Entry ℝ
   have h0 : Inv f w.fn.params w.fn := ⟨Skel.refl _, hok, hfeas, hlog⟩
   have := runCalls_inv f w.fn.params es w h0
   exact ⟨this.log, this.feas⟩
+
+/-- `probes_feasible`, caller's side: during an entry point (returning or raising) every point at
+which the objective is evaluated is also accepted by the constraints of the list the caller
+passed, for the parameters that list mentions (`CFpt pl ref pt`: coordinate by coordinate along
+the wrapped function's parameter list `ref`).  Each probe value goes through `Parameter::setValue`
+of a copy of the caller's parameter, which checks the copied constraint; everything else the
+wrappers send to the wrapped function are values of the caller's list itself.  Hypotheses: the
+wrapped function's own list has unique names and no precision, the evaluation log is empty before
+the call, the caller's parameters satisfy their own constraints. -/
+theorem probes_feasible_caller (f : List ℝ → ℝ) (w : W ℝ) (e : Entry ℝ) (hown : Own w.fn) (hok : w.fn.OK f) (he : e.Nodup)
+    (hlog : w.fn.log = []) (hfw : (w.fn.forward f e).2.1 = none) (pl : PList ℝ)
+    (hl : e.list (w.fn.forward f e).1 = .ok pl) (hfeas : Feas pl) :
+    ∀ pt ∈ (w.call f e).1.fn.log, CFpt pl (w.fn.forward f e).1.params pt := by
+  obtain ⟨o1, o2, _, pl', hl', hsy, hnd⟩ := forward_spec f w.fn e hown hok he _ rfl hfw
+  rw [hl] at hl'
+  injection hl' with hl'
+  subst hl'
+  have hwf : CallerWF pl := ⟨hnd, hfeas⟩
+  have hinv : InvC pl (w.fn.forward f e).1.params (w.fn.forward f e).1 := by
+    refine ⟨Skel.refl _, CF_of_synced hwf hsy, ?_⟩
+    intro pt hpt
+    rcases forward_shape f w.fn e with h | ⟨own, h⟩
+    · rw [h, hlog] at hpt; cases hpt
+    · have hp : (w.fn.forward f e).1.params = own := by rw [h]; rfl
+      rw [h] at hpt
+      simp only [Fn.fire, hlog, List.mem_cons, List.not_mem_nil, or_false] at hpt
+      rw [hpt, hp]
+      have hcf := CF_of_synced hwf hsy
+      rw [hp] at hcf
+      exact CFpt_values (Skel.refl own) hcf
+  unfold W.call
+  rcases hfwd : w.fn.forward f e with ⟨fn1, x, b⟩
+  rw [hfwd] at hfw hl hinv
+  simp only [] at hfw hl hinv
+  subst hfw
+  simp only [hl]
+  exact (hinv.reach (update_reachC f hwf ({ w with fn := fn1 } : W ℝ))).log
 
 /-- `transparent` holds after every history of calls (returning or raising): its hypotheses are
 invariants of the wrapper -/
